@@ -110,7 +110,14 @@ def main():
                     rec["status"] = "does-not-compile"
                 else:
                     pk = [pkg] + (["./internal/broker/"] if pkg != "./internal/broker/" else [])
-                    rc, out = sh(["go", "test", "-vet=off", "-count=1", "-timeout", "150s"] + pk, cwd=wt, timeout=400)
+                    # own network namespace: the broker tests listen on fixed ports (4000, 8080) and would collide
+                    # with every other test run on this machine; one retry absorbs load-sensitive tests (TestTimeout)
+                    tcmd = ["unshare", "-n", "--", "sh", "-c", "ip link set lo up; exec go test -vet=off -count=1 -timeout 150s " + " ".join(pk)]
+                    rc, out = sh(tcmd, cwd=wt, timeout=400)
+                    if rc != 0:
+                        rc2, out2 = sh(tcmd, cwd=wt, timeout=400)
+                        if rc2 == 0 or len(out2) < len(out):
+                            rc, out = rc2, out2
                     fails = [l for l in out.split("\n") if l.startswith("--- FAIL") or l.startswith("panic:") or l.startswith("FAIL")]
                     fails = [l for l in fails if not re.search(r"TestJoin|TestNewClient|TestStatsd", l)]
                     real = [l for l in fails if l.startswith("--- FAIL") or l.startswith("panic:")]
